@@ -7,6 +7,7 @@ V_ASSIGNS()
 V_ENSURES(1)
 ;
 
+#ifndef V_FLUSH_UNIT   /* the version call_pubsub_cb() is PROVED against (unit ps.call_pubsub_cb) */
 V_CONTRACT
 void call_pubsub_cb(m_mod_t *mod, m_queue_t *evts)
 V_REQUIRES(v_base_ok() && mod == g_mod && V_RW_OK(g_mod, sizeof(m_mod_t)) && g_mod->ctx == g_ctx && V_RW_OK(g_ctx, sizeof(m_ctx_t)))
@@ -29,6 +30,15 @@ V_ENSURES(V_IMP(V_OLD(g_evq->len) > 0, g_mod->stats.recv_msgs == V_OLD(g_mod->st
 /* the delivered batch is released exactly once, after the handler returned */
 V_ENSURES(g.qfree_calls == V_OLD(g.qfree_calls) + 1 && g.qfree_arg == g_evq)                                                                /*@C04.batch-released-exactly-once*/
 ;
+
+#else                  /* as a callee of flush_pubsub_msgs(): only what the caller needs */
+V_CONTRACT
+void call_pubsub_cb(m_mod_t *mod, m_queue_t *evts)
+V_REQUIRES(mod != NULL && V_Q_OK(evts))
+V_ASSIGNS(g.cb_calls, g.cb_mod, g.cb_q, g.cb_qlen)
+V_ENSURES(g.cb_calls == V_OLD(g.cb_calls) + 1 && g.cb_mod == mod && g.cb_q == evts && g.cb_qlen == evts->len)
+;
+#endif
 
 /* ---- sending: one recipient (tell_if) ---------------------------------------------------------------------------------- */
 V_CONTRACT
@@ -66,4 +76,43 @@ V_ENSURES(V_IMP(V_TELL_ELIGIBLE && !g_alloc_fails, g.ref_calls == V_OLD(g.ref_ca
 /* pipe full: the COPY is released exactly once; the caller's message object (which is not reference counted) is left alone */
 V_ENSURES(V_IMP(V_TELL_ELIGIBLE && !g_alloc_fails && g_pipe_full, g.unref_calls == V_OLD(g.unref_calls) + 1 && g.unref_arg == g.memnew_ret))  /*@C04.undeliverable-copy-released-not-the-callers-message*/
 V_ENSURES(V_IMP(!(V_TELL_ELIGIBLE && !g_alloc_fails && g_pipe_full), g.unref_calls == V_OLD(g.unref_calls)))
+;
+
+/* ---- receiving side: draining the recipient's pipe (flush_pubsub_msgs) ------------------------------------------------- */
+/* ghost pipe: g.pipe_len pointers pending; every one of them is (an alias of) the ghost message g_pmsg */
+V_CONTRACT
+ssize_t v_read(int fd, void *buf, size_t n)
+V_REQUIRES(buf != NULL && n == sizeof(void *) && V_RW_OK(buf, sizeof(void *)) && fd == g_mod->pubsub_fd[0])                                  /*@C08.reads-the-recipients-own-pipe*/
+V_ASSIGNS(g.read_calls, g.pipe_len, g_errno, *(ps_priv_t **)buf)
+V_ENSURES(g.read_calls == V_OLD(g.read_calls) + 1)
+V_ENSURES(V_OLD(g.pipe_len) > 0 ? (V_RET == (ssize_t)sizeof(void *) && g.pipe_len == V_OLD(g.pipe_len) - 1 && __CPROVER_pointer_equals(*(ps_priv_t **)buf, g_pmsg))
+                                : (V_RET == -1 && g.pipe_len == 0))
+;
+V_CONTRACT
+evt_priv_t *new_evt(ev_src_t *src)
+V_REQUIRES(src == NULL || V_R_OK(src, sizeof(ev_src_t)))             /* a message sent by tell/broadcast has no subscription: src may be NULL */
+V_ASSIGNS(g.newevt_calls, g.newevt_src)
+V_ENSURES(__CPROVER_is_fresh(V_RET, sizeof(evt_priv_t)) && V_RET->src == src && V_RET->evt.fd_evt == NULL && g.newevt_calls == V_OLD(g.newevt_calls) + 1 && g.newevt_src == src)
+;
+V_CONTRACT
+int fs_ctx_stopped(m_mod_t *mod)
+V_REQUIRES(1)
+V_ASSIGNS()
+V_ENSURES(1)
+;
+/* (contract of call_pubsub_cb as a callee: see its enforced version above; here only the call is recorded) */
+
+V_CONTRACT
+int flush_pubsub_msgs(void *data, const char *key, void *value)
+V_REQUIRES(v_base_ok() && value == (void *)g_mod && V_RW_OK(g_mod, sizeof(m_mod_t)) && v_state_valid(g_mod->state) && g_mod->name != NULL)
+V_REQUIRES(g_pmsg != NULL && V_RW_OK(g_pmsg, sizeof(ps_priv_t)) && (g_pmsg->sub == NULL || V_R_OK(g_pmsg->sub, sizeof(ev_src_t))) && g.pipe_len < ((size_t)1 << 58))
+V_REQUIRES(g_P0 == g.pipe_len && g_e0 == g.enq_calls && g_u0 == g.unref_calls && g_cb0 == g.cb_calls && g_mod->pubsub_fd[0] != -1)
+V_ASSIGNS(g.read_calls, g.pipe_len, g_errno, g.qnew_calls, g.qnew_ret, g.newevt_calls, g.newevt_src, g.enq_calls, g.enq_arg, g.enq_q, g.unref_calls, g.unref_arg, g.unref_arg_prev,
+          g.cb_calls, g.cb_mod, g.cb_q, g.cb_qlen)
+V_ENSURES(V_RET == 0 && g.pipe_len == 0)                                                                                                    /*@C02.flush-drains-the-pipe*/
+/* loop stop with the module RUNNING: every pending message is handed over (none released), in pipe order, in ONE handler invocation */
+V_ENSURES(V_IMP(key != NULL && g_mod->state == M_MOD_RUNNING, g.enq_calls == g_e0 + g_P0 && g.unref_calls == g_u0
+                && g.cb_calls == g_cb0 + 1 && g.cb_mod == g_mod && g.cb_q == g.qnew_ret && g.cb_qlen == g_P0))                                /*@C02.pending-messages-delivered-at-loop-stop-in-one-invocation*/
+/* module stopping, or not RUNNING when the loop ends: every pending message is discarded, each released exactly once, none delivered */
+V_ENSURES(V_IMP(key == NULL || g_mod->state != M_MOD_RUNNING, g.unref_calls == g_u0 + g_P0 && g.enq_calls == g_e0 && g.cb_qlen == 0))         /*@C02.discarded-when-recipient-stops-or-is-not-running*/
 ;
